@@ -14,7 +14,7 @@ import (
 // the race detector.
 func VerifC19SharedWrites() {
 	w := vrtRoot() + "/w"
-	family := vrtChoice("family", 8)
+	family := vrtChoice("family", 9)
 	doc := map[string]any{"services": map[string]any{"s": map[string]any{"image": "i"}}}
 	switch family {
 	case 1:
@@ -32,6 +32,12 @@ func VerifC19SharedWrites() {
 	case 6:
 		// interpolation with every operator
 		doc["services"].(map[string]any)["s"].(map[string]any)["environment"] = []any{"A=${X:-d}", "B=${X-d}", "C=${X:+r}", "D=${X+r}", "E=${X:?m}", "F=${X?m}", "G=${Y:-${X}}"}
+	case 8:
+		// string scalars at typed positions (quoted literals and variables): the conversion table is consulted for them
+		doc["services"].(map[string]any)["s"] = map[string]any{"image": "i", "privileged": "true", "cpus": "${X}", "scale": "${X}",
+			"ports": []any{map[string]any{"target": "${X}", "published": "8080"}}, "ulimits": map[string]any{"nofile": "${X}"},
+			"volumes": []any{map[string]any{"type": "volume", "source": "v", "target": "/v", "read_only": "${RO:-true}"}}}
+		doc["volumes"] = map[string]any{"v": map[string]any{"external": "${EXT:-false}"}}
 	case 7:
 		// a whole-model pass: profiles, depends_on, volumes, secrets, ports, build
 		vrtFile(w+"/sec.txt", "s")
